@@ -769,6 +769,38 @@ theorem cmsa_sigma_pos (F : Fns Rat) (cC : Rat) (n mu : Nat) (hmu : 1 ≤ mu) (s
     positivity
   exact foldl_pos sel _ _ hm (le_refl _) hpos (Or.inl hne)
 
+/-- relabel the fitness of a CMSA offspring -/
+def relabelCmsa (φ : Rat → Rat) (i : CmsaInd Rat) : CmsaInd Rat := { i with fitness := φ i.fitness }
+
+/-- selection in `CMSA::updatePopulation` on relabelled fitness values picks the same offspring in the same order -/
+theorem cmsaSelect_relabel (φ : Rat → Rat) (hφ : OrderPreserving φ) (off : List (CmsaInd Rat)) (mu : Nat) :
+    cmsaSelect (off.map (relabelCmsa φ)) mu = (cmsaSelect off mu).map (relabelCmsa φ) := by
+  unfold cmsaSelect
+  rw [List.map_take]
+  congr 1
+  symm
+  apply List.map_mergeSort
+  intro a _ b _
+  exact hφ a.fitness b.fitness
+
+/-- the CMSA update reads points, steps and step sizes of the selected offspring, never their fitness -/
+theorem cmsaUpdate_relabel (F : Fns Rat) (cC : Rat) (n mu : Nat) (s : Cmsa Rat) (sel : List (CmsaInd Rat)) (φ : Rat → Rat) :
+    cmsaUpdate F cC n mu s (sel.map (relabelCmsa φ)) = cmsaUpdate F cC n mu s sel := by
+  unfold cmsaUpdate
+  simp only [List.foldl_map]
+  rfl
+
+/-- **cmsa_step_rank_invariant**: one generation of CMSA on `φ ∘ f` with the same offspring (same generator stream) yields
+the same step size, mean and covariance factor, and reports the same point, for every order-preserving `φ` -/
+theorem cmsa_step_rank_invariant (F : Fns Rat) (cC : Rat) (n mu : Nat) (s : Cmsa Rat) (off : List (CmsaInd Rat))
+    (φ : Rat → Rat) (hφ : OrderPreserving φ) :
+    cmsaUpdate F cC n mu s (cmsaSelect (off.map (relabelCmsa φ)) mu) = cmsaUpdate F cC n mu s (cmsaSelect off mu) ∧
+      ((cmsaSelect (off.map (relabelCmsa φ)) mu).head?.map (·.point)) = ((cmsaSelect off mu).head?.map (·.point)) := by
+  rw [cmsaSelect_relabel φ hφ]
+  refine ⟨cmsaUpdate_relabel F cC n mu s _ φ, ?_⟩
+  rw [List.head?_map, Option.map_map]
+  rfl
+
 /-! ## simplex downhill -/
 theorem track_le (b x : Sol Rat) : (track b x).value ≤ b.value := by
   unfold track; split
